@@ -482,7 +482,7 @@ def check_concrete(kind, v, u, out, L):
 
 def check(run):
   thorough = run.tier == 'thorough'
-  timeout = 30.0 if not thorough else 180.0
+  timeout = 90.0 if not thorough else 300.0
   run.functions += ['compression.binary_stochastic_quantize', 'uniform_stochastic_quantize(_pytree)', 'terngrad_quantize(_pytree)',
                     'drive_pytree', 'uniform/rotated_uniform/structured_drive/terngrad aggregators .apply', 'walsh_hadamard rotations', 'tree_util.tree_mean']
   run.trusted += ['z3', 'vf/symjx.py interpreter (min/max as fresh variables with defining facts; bounded floor as ite chain, range proved)',
